@@ -181,7 +181,11 @@ fn needs_parens_in_type_pos(typ: &Type) -> bool {
     if let TypeF::Contract(ast) = &typ.typ {
         matches!(
             &ast.node,
-            Node::Fun { .. } | Node::Let { .. } | Node::IfThenElse { .. } | Node::Import { .. }
+            Node::Fun { .. }
+                | Node::Let { .. }
+                | Node::IfThenElse { .. }
+                | Node::Import { .. }
+                | Node::Annotated { .. }
         )
     } else {
         false
